@@ -264,7 +264,7 @@ class TypedNode(Node):
                 deep = True
             topnodes = child._root.children
             if isinstance(before, (int, TypedNode)) or before is True:
-                topnodes.reverse()
+                topnodes = topnodes[::-1]
             for n in topnodes:
                 self.add_child(n, before=before, deep=deep)
             return
